@@ -68,6 +68,8 @@ impl SyncFlag {
     #[inline]
     fn wakeup_all(&self) {
         while let Some(w) = self.to_wake.pop() {
+            #[cfg(may_verif)]
+            may_queue::verif::point(may_queue::verif::site::FLAG_WAKE_POPPED, self as *const _ as usize);
             w.unpark();
             if w.take_release() {
                 self.fire();
@@ -85,20 +87,30 @@ impl SyncFlag {
         let cur = SyncBlocker::current();
         // register blocker first
         self.to_wake.push(cur.clone());
+        #[cfg(may_verif)]
+        may_queue::verif::point(may_queue::verif::site::FLAG_WAIT_PUSHED, self as *const _ as usize);
         // dec the cnt, if it's positive, unpark one waiter
         if self.cnt.fetch_sub(1, Ordering::SeqCst) > 0 {
+            #[cfg(may_verif)]
+            may_queue::verif::point(may_queue::verif::site::FLAG_WAIT_SUBBED, self as *const _ as usize);
             self.wakeup_all();
         }
 
+        #[cfg(may_verif)]
+        may_queue::verif::point(may_queue::verif::site::FLAG_WAIT_SUBBED, self as *const _ as usize);
         match cur.park(dur) {
             Ok(_) => true,
             Err(err) => {
+                #[cfg(may_verif)]
+                may_queue::verif::point(may_queue::verif::site::FLAG_TIMEOUT_CHECK, self as *const _ as usize);
                 // check the unpark status
                 if cur.is_unparked() {
                     self.fire();
                 } else {
                     // register
                     cur.set_release();
+                    #[cfg(may_verif)]
+                    may_queue::verif::point(may_queue::verif::site::FLAG_TIMEOUT_SETREL, self as *const _ as usize);
                     // re-check unpark status
                     if cur.is_unparked() && cur.take_release() {
                         self.fire();
@@ -131,6 +143,8 @@ impl SyncFlag {
     /// and would wakeup all threads/coroutines that are calling `wait`
     pub fn fire(&self) {
         self.cnt.store(isize::MAX, Ordering::SeqCst);
+        #[cfg(may_verif)]
+        may_queue::verif::point(may_queue::verif::site::FLAG_FIRE_STORED, self as *const _ as usize);
 
         // try to wakeup all waiters
         self.wakeup_all();
